@@ -235,6 +235,93 @@ struct Fns {
     slice_at: Arc<Function>,
 }
 
+/// Strings of the same size one after the other: a string is indexed, measured and sliced, dropped,
+/// and another string of the same byte length (other characters, another number of characters) is
+/// made right after it - the allocator hands out the same buffer again (counted: `buffer_reused`) -
+/// and indexed at every position. Every ordered pair of strings of equal byte length over a
+/// 4-character alphabet with 1..4-byte characters (1..=3 characters, and the same repeated 6 times),
+/// on one thread, host route (one function value per operation, the strings as arguments).
+/// What an earlier string was must not show in what a later one answers
+fn same_size_strings_in_turn() -> (u64, u64, Vec<Violation>) {
+    let interp = Interpreter::with_stdlib();
+    let index = define(&interp, "f := (s: string, i: int) -> any { return s[i] }");
+    let len = define(&interp, "f := (s: string) -> any { return std.len(s) }");
+    let rev = define(&interp, "f := (s: string) -> any { return (s[::-1], s[1:], s[-1:]) }");
+    let walk = define(&interp, "f := (s: string) -> any { n := std.len(s); acc := mut [string] []; i := mut 0; while *i < n { acc += [s[*i]]; i += 1 }; return *acc }");
+    let alphabet = ['a', 'é', '日', '😀'];
+    let mut base: Vec<String> = Vec::new();
+    for a in alphabet {
+        base.push(a.to_string());
+        for b in alphabet {
+            base.push(format!("{a}{b}"));
+            for c in alphabet {
+                base.push(format!("{a}{b}{c}"));
+            }
+        }
+    }
+    let mut strings: Vec<String> = base.iter().filter(|s| !s.is_ascii()).cloned().collect();
+    strings.extend(base.iter().filter(|s| !s.is_ascii() && s.chars().count() == 2).map(|s| s.repeat(6)));
+    let mut n = 0u64;
+    let mut reused = 0u64;
+    let mut out: Vec<Violation> = Vec::new();
+    let check = |s: &str, v: &Variable, after: &str, n: &mut u64, out: &mut Vec<Violation>| {
+        let cs: Vec<char> = s.chars().collect();
+        let k = cs.len() as i64;
+        let mut bad: Vec<String> = Vec::new();
+        for i in -k - 1..=k {
+            let want = if i >= -k && i < k { format!("{:?}", cs[((i + k) % k) as usize].to_string()) } else { "error:IndexOutOfBounds".to_string() };
+            let got = call(&index, vec![v.clone(), Variable::Int(i)]);
+            *n += 1;
+            if got != want {
+                bad.push(format!("s[{i}] = {got}, expected {want}"));
+            }
+        }
+        let got = call(&len, vec![v.clone()]);
+        if got != k.to_string() {
+            bad.push(format!("std.len(s) = {got}, expected {k}"));
+        }
+        let want = format!("({:?}, {:?}, {:?})", cs.iter().rev().collect::<String>(), cs[1..].iter().collect::<String>(), cs[cs.len() - 1..].iter().collect::<String>());
+        let got = call(&rev, vec![v.clone()]);
+        if got != want {
+            bad.push(format!("(s[::-1], s[1:], s[-1:]) = {got}, expected {want}"));
+        }
+        let want = format!("[{}]", cs.iter().map(|c| format!("{:?}", c.to_string())).collect::<Vec<_>>().join(", "));
+        let got = call(&walk, vec![v.clone()]);
+        if got != want {
+            bad.push(format!("walk by index = {got}, expected {want}"));
+        }
+        *n += 3;
+        if !bad.is_empty() && out.len() < 200 {
+            out.push(Violation {
+                sig: format!("C09|string-answers-depend-on-an-earlier-string|bytes={}|chars={}", s.len(), cs.len()),
+                detail: json!({"kind": "string_after_string", "string": s, "indexed_just_before_and_dropped": after, "disagreements": bad}),
+            });
+        }
+    };
+    for s1 in &strings {
+        for s2 in &strings {
+            if s1 == s2 || s1.len() != s2.len() {
+                continue;
+            }
+            let v1 = Variable::String(Arc::from(s1.as_str()));
+            let p1 = match &v1 { Variable::String(a) => a.as_ptr() as usize, _ => 0 };
+            check(s1, &v1, "", &mut n, &mut out);
+            // the allocator's free lists for this size are emptied first (buffers of the same size are
+            // taken and kept), so that the buffer given back next is the one handed out next
+            let hold: Vec<Arc<str>> = (0..2000).map(|_| Arc::from(s1.as_str())).collect();
+            drop(v1);
+            let v2 = Variable::String(Arc::from(s2.as_str()));
+            let p2 = match &v2 { Variable::String(a) => a.as_ptr() as usize, _ => 0 };
+            drop(hold);
+            if p1 == p2 {
+                reused += 1;
+            }
+            check(s2, &v2, s1, &mut n, &mut out);
+        }
+    }
+    (n, reused, out)
+}
+
 pub fn run(tier: &str) -> i32 {
     let thorough = tier == "thorough";
     let mut report = Report::new("C09", tier);
@@ -502,10 +589,17 @@ pub fn run(tier: &str) -> i32 {
     samples.push(|| json!({"slice": format!("[1, 2][{}::{}]", int_lit(i64::MIN), int_lit(i64::MAX))}));
     let Acc { evals, states: n_states, outcomes, violations } = acc;
     report.violations(violations);
+    let turn = core::on_big_stack(same_size_strings_in_turn);
+    if turn.1 == 0 {
+        eprintln!("NOTE: C09 same-size strings: the allocator never handed a dropped string's buffer to the next string (the family then only checks strings one after the other)");
+    }
+    report.violations(turn.2);
     let coverage = json!({
         "states": n_states,
         "transitions": evals,
         "traces_validated_against_impl": evals,
+        "same_size_strings_in_turn_evaluations": turn.0,
+        "same_size_strings_in_turn_pairs_in_which_the_buffer_was_reused": turn.1,
         "sequences": seqs.len(),
         "indices": idx.len(),
         "slice_bound_values_incl_none": opt_idx.len(),
